@@ -218,7 +218,7 @@ def contracts():
         ("after_stmt", "for name in h.iter()", 1, "proof { assert(hs@.take(hs@.len() as int) =~= hs@); }"),
         ("before_tail", None, 1, "proof { assert(hook_names(Seq::<hooks::Hook>::empty()) =~= Seq::<Seq<char>>::empty()); }")]
     # ---- C18: the root certificate list handed to the HTTP layer = command line ++ endpoint ++ global, in this order
-    c["Endpoint::to_generic"] = FnSpec(ret="r", sig="""
+    c["Endpoint::to_generic"] = FnSpec(ret="r", body_start="broadcast use crate::endpoint::lemma_raw_view_push;", sig="""
     ensures
         r matches Ok(e) ==> strs(e.root_certificates@) == strs_ref(root_certs@) + opt_strs(self.root_certificates)
                 + (match cnf.global { Some(g) => opt_strs(g.root_certificates), None => Seq::<Seq<char>>::empty() }), //@C18.roots_are_cmdline_then_endpoint_then_global
@@ -233,14 +233,6 @@ def contracts():
         limits@.len() == it.index@,
         forall|k: int| 0 <= k < it.index@ ==> attached(*cnf, self.rate_limits@[k]@, #[trigger] crate::endpoint::raw_view(limits@)[k]), //@C09.every_limit_the_endpoint_names_is_attached_or_start_up_fails,C14.every_limit_the_endpoint_names_is_attached
 """}, at=[("loop_iter", None, 1, "it:"),
-          ("opt:before_stmt_re", r"(\w+)\.push\(\((\w+), (\w+)\)\)", 1, "let ghost lb__ = $1;"),
-          ("opt:after_stmt_re", r"(\w+)\.push\(\((\w+), (\w+)\)\)", 1, """
-            proof {
-                assert(crate::endpoint::raw_view($1@) =~= crate::endpoint::raw_view(lb__@).push(($2, $3@)));
-                assert forall|k: int| 0 <= k < it.index@ + 1 implies attached(*cnf, self.rate_limits@[k]@, #[trigger] crate::endpoint::raw_view($1@)[k]) by {
-                    if k < it.index@ { assert(crate::endpoint::raw_view($1@)[k] == crate::endpoint::raw_view(lb__@)[k]); }
-                }
-            }"""),
           ("before_stmt", "crate::endpoint::Endpoint::new(", 1, """
         proof {
             assert(strs(root_lst@) =~= strs_ref(root_certs@) + opt_strs(self.root_certificates)
@@ -405,6 +397,8 @@ pub proof fn documented_defaults()
 // what a limiter was built from (RateLimit::new is verified in unit ratelimit: every (number, period) it is given is enforced)
 pub uninterp spec fn rl_raw(rl: RateLimit) -> Seq<(usize, Seq<char>)>;
 pub open spec fn raw_view(s: Seq<(usize, String)>) -> Seq<(usize, Seq<char>)> { s.map_values(|t: (usize, String)| (t.0, t.1@)) }
+pub broadcast proof fn lemma_raw_view_push(s: Seq<(usize, String)>, x: (usize, String))
+    ensures #[trigger] raw_view(s.push(x)) =~= raw_view(s).push((x.0, x.1@)) {}
 """)
     u.stub("acmed/src/endpoint.rs", "RateLimit::new", "endpoint", fns={"new": FnSpec(ret="r", sig="    ensures r matches Ok(x) ==> rl_raw(x) == raw_view(raw_limits@),\n")})
     u.verify("acmed/src/endpoint.rs", "Endpoint::new", "endpoint", props=["C18"], fns={"new": FnSpec(ret="r", sig="""
